@@ -43,6 +43,9 @@ func Eval(e Expr, n *adoc.Node, env *Env) (Value, error) {
 
 func EvalCtx(e Expr, c Ctx) (Value, error) { return eval(e, c) }
 
+// SortUnique puts a node list into document order without duplicates.
+func SortUnique(ns NodeSet) NodeSet { return sortUnique(append(NodeSet{}, ns...)) }
+
 func sortUnique(ns NodeSet) NodeSet {
 	sort.Slice(ns, func(i, j int) bool { return ns[i].ID < ns[j].ID })
 	out := ns[:0]
